@@ -7,6 +7,7 @@ from ..lit import canon
 
 ID = "C05"
 LEVEL = "exploration"
+W3_CONTRACTS = ['K4']  # the repository's own tests are also run under these contracts
 DECIDING = ["RuleTest._test", "Rule.test", "FilteredDataLike.get_failure_by_index", "FilteredDataItem.__init__"]
 RULE = ("case = (rule = path term + value-kind condition tree, document). W1: systematic zoo paths x "
         "a fixed family of value conditions (null, leaves that all/some/none of the selected nodes "
